@@ -22,7 +22,7 @@ BOUNDS = {
              'names, 8-bit value, LF line ends, Content-Transfer-Encoding '
              'present), separated by CRLF CRLF or LF LF: parse + flatten, '
              'copy(), pickle round trip, re-parse of the flattened output; '
-             'encode_7bit() without encoder; 11 malformed header blocks (no '
+             'encode_7bit() without encoder; 14 malformed header blocks (no '
              'colon, stray 8-bit line, over-long lines, NUL, empty) x 4 '
              'separators (CRLF CRLF, LF LF: every body of 2 bytes; single '
              'CRLF or none: 1 arbitrary byte appended) - parse/flatten/copy/'
@@ -73,6 +73,10 @@ MALFORMED = [
     b' leading space: x',
     b'Subject: x\r\n \r\nX-After: blank-looking fold',
     b'',
+    # over-long lines that the stdlib refolds: 8-bit word + unbreakable token
+    b'X-A: caf\xc3\xa9 ' + b'y' * 100,
+    b'X-A: \xffabc ' + b'y' * 100 + b'\r\nSubject: x',
+    b'x' * 80 + b': \x1c',
 ]
 TEXTS = ['héllo wörld\r\n', 'plain ascii\r\n',
          '中文 line one\r\nline two ü\r\n', 'é',
